@@ -266,5 +266,12 @@ func (g *gen) malformedCaseAt(typ int, val []byte, op string, pos, fixedExtra in
 		g.emit("RAWDEC %d %d %d %s", slot, extra, g.r.intn(256), showHex(b))
 		g.emit(op, slot)
 		g.emit("DUMP %d", slot)
+		if slot == 2 && pos == 1 {
+			// ... also when the attribute is reached by an attribute walk whose callback gives up at the second of
+			// the neighbours: the list must come back whole
+			g.emit("FOREACH %d %d 2 0", slot, 0x7777)
+			g.emit(op, slot)
+			g.emit("DUMP %d", slot)
+		}
 	}
 }
